@@ -27,7 +27,8 @@ P = json.loads(os.environ.get('XH_PARAMS', '{}') or '{}')
 L = int(P.get('len', 3))
 REPO = os.environ.get('VERIF_REPO', '/repo')
 SRC = os.path.join(REPO, 'tests', 'data', 'testdb_210818')
-_ROOT = os.path.join(os.path.dirname(os.path.dirname(os.path.abspath(__file__))), 'scratch', f'c18_db_{os.getpid()}')
+from xh import scratchdir
+_ROOT = scratchdir.fresh('c18_db')
 DBDIR = os.path.join(_ROOT, 'db')
 GFILE = os.path.join(DBDIR, 'ref-genomes.gdb')
 SFILE = os.path.join(DBDIR, 'ref-signatures.gs')
@@ -42,7 +43,7 @@ def _sha(p):
 
 
 def _setup():
-    shutil.rmtree(_ROOT, ignore_errors=True)
+    shutil.rmtree(DBDIR, ignore_errors=True)
     os.makedirs(DBDIR)
     shutil.copy(os.path.join(SRC, 'ref-genomes.gdb'), GFILE)
     shutil.copy(os.path.join(SRC, 'ref-signatures.gs'), SFILE)
@@ -50,8 +51,6 @@ def _setup():
 
 
 H0 = _setup()
-import atexit
-atexit.register(lambda: shutil.rmtree(_ROOT, ignore_errors=True))
 with load_signatures(os.path.join(SRC, 'queries', 'query-signatures.gs')) as _q:
     QUERIES = [np.array(_q[i]) for i in range(3)]
     QSPEC = _q.kmerspec
@@ -62,10 +61,38 @@ OPS = ['query', 'add-taxon+flush', 'edit-genome+flush', 'edit+autoflush-query', 
 WRITE_WORDS = ('INSERT', 'UPDATE', 'DELETE', 'REPLACE', 'CREATE', 'DROP', 'ALTER', 'VACUUM', 'REINDEX')
 
 
+OTHER = os.path.join(_ROOT, 'other.sqlite')
+
+
+def _prehistory(pre):
+    """What the process did before it opened the reference database: nothing, or it asked the library for a WRITABLE session on an
+    unrelated database file and used it (legitimate: the library offers readonly=False for building databases)."""
+    if pre == 0:
+        return
+    from gambit.db.sqla import file_sessionmaker
+    from gambit.db.models import Base
+    import sqlalchemy.orm
+    if pre == 1:
+        mk = file_sessionmaker(OTHER, readonly=False)
+    else:
+        mk = file_sessionmaker(OTHER, cls=sqlalchemy.orm.Session)
+    s = mk()
+    try:
+        Base.metadata.create_all(s.get_bind())
+        from gambit.db.models import ReferenceGenomeSet
+        s.add(ReferenceGenomeSet(key=f'other/{os.getpid()}', version='1.0', name='elsewhere'))
+        s.flush()
+        s.rollback()
+    finally:
+        s.close()
+        s.get_bind().dispose()
+
+
 class Ctx:
-    def __init__(self, opener):
+    def __init__(self, opener, pre=0):
         self.opener = opener
         self.dml = []
+        _prehistory(pre)
         self.open()
 
     def open(self):
@@ -151,8 +178,8 @@ def _step(c, op, k):
     return None
 
 
-def _history(opener, ops):
-    c = Ctx(opener)
+def _history(opener, ops, pre=0):
+    c = Ctx(opener, pre)
     try:
         for k, op in enumerate(ops):
             why = _step(c, op, k)
@@ -169,17 +196,22 @@ def _history(opener, ops):
     if now != H0:
         _setup()
         return False, 'after closing: ' + ('genome file' if now[0] != H0[0] else 'signature file') + ' changed on disk'
+    if os.path.exists(OTHER):
+        os.remove(OTHER)
     left = sorted(os.listdir(DBDIR))
     if left != ['ref-genomes.gdb', 'ref-signatures.gs']:
         return False, f'extra files left in the database directory: {left}'
     return True, None
 
 
+PRE = int(P.get('pre', 0))
+
+
 def _run(opener, o0, o1, o2, o3):
     oc = fork_int(opener, 0, 1)
     ops = [fork_int(o, 0, len(OPS) - 1) for o in (o0, o1, o2, o3)[:L]]
     with NoTracing():
-        ok, why = _history(oc, ops)
+        ok, why = _history(oc, ops, PRE)
         if not ok:
             _setup()         # start the next history from pristine files
         return ok, why
@@ -195,4 +227,4 @@ def _c18_history(opener: int, o0: int, o1: int, o2: int, o3: int) -> bool:
 
 
 def explain_c18_history(opener, o0, o1, o2, o3):
-    return {'opened_by': ['ReferenceDatabase.load_from_dir', 'CLIContext.get_database'][opener], 'history': [OPS[o] for o in (o0, o1, o2, o3)[:L]], 'why': _run(opener, o0, o1, o2, o3)[1]}
+    return {'before_opening': ['nothing', 'a writable session (readonly=False) on an unrelated file was used', 'a writable session (cls=Session) on an unrelated file was used'][PRE], 'opened_by': ['ReferenceDatabase.load_from_dir', 'CLIContext.get_database'][opener], 'history': [OPS[o] for o in (o0, o1, o2, o3)[:L]], 'why': _run(opener, o0, o1, o2, o3)[1]}
